@@ -214,6 +214,10 @@ for _cfg in _c3:
 for _cfg in (ALL2[0], ALL2[2], [c_ for c_ in ALL2 if c_[1][1] == 16][0]):
     nm = f'{_cfg[0]}@{"x".join(map(str, _cfg[1]))},2d'
     fuc(RI + '__init__', props=['C09', 'C03', 'C05', 'C15', 'C18'])(type('ReaderInit2d', (ReaderInit,), dict(cfg=_cfg, two_d=True, variant=nm)))
+# preload is a promise of the 2-D reader too (C07: "with preload the data section is fetched exactly once and never again")
+for _cfg in (ALL2[0], [c_ for c_ in ALL2 if c_[1][1] == 16][0]):
+    nm = f'{_cfg[0]}@{"x".join(map(str, _cfg[1]))},2d,preload'
+    fuc(RI + '__init__', props=['C07', 'C09'])(type('ReaderInit2d', (ReaderInit,), dict(cfg=_cfg, two_d=True, preload=True, variant=nm)))
 
 for _cfg, _pre, _2d in ((CFG_DEFAULT[3], False, False), (CFG_DEFAULT[3], True, False), (ALL2[0], False, True)):
     nm = f'{_cfg[0]}@{"x".join(map(str, _cfg[1]))}' + (',preload' if _pre else '') + (',2d' if _2d else '') + ',fault'
